@@ -110,8 +110,27 @@ pub fn sum_effect<State, Action>(
     State: Send + Sync + Clone + 'static,
     Action: Send + Sync + Clone + 'static,
 {
+    let j = log_phase(PH_EFFECT, to_st(state), to_act(action));
+    nested_dispatch::<Action>(j, &dispatcher);
     core::mem::forget(dispatcher);
-    log_phase(PH_EFFECT, to_st(state), to_act(action));
+}
+
+/// G-nested: a middleware that dispatches a follow-up action SYNCHRONOUSLY through the
+/// dispatcher it was handed, during the effect phase of action `NEST_AT` (off by default)
+pub static mut NEST_AT: usize = usize::MAX;
+pub static mut NEST_ACT: u8 = 0;
+/// 0 = not called, 1 = Ok, 2 = Err
+pub static mut NEST_RES: u8 = 0;
+fn nested_dispatch<Action: Send + Sync + Clone + 'static>(j: usize, dispatcher: &Arc<dyn Dispatcher<Action>>) {
+    unsafe {
+        if j == NEST_AT && NEST_RES == 0 {
+            assert!(core::mem::size_of::<Action>() == 1);
+            let a: Action = core::mem::transmute_copy::<u8, Action>(&NEST_ACT);
+            let r = dispatcher.dispatch(a);
+            NEST_RES = if r.is_ok() { 1 } else { 2 };
+            core::mem::forget(r);
+        }
+    }
 }
 
 pub fn sum_notify<State, Action>(
@@ -156,8 +175,9 @@ impl crate::Middleware<St, Act> for ProbeMiddleware {
         _effects: &mut Vec<Effect<Act>>,
         dispatcher: Arc<dyn Dispatcher<Act>>,
     ) -> Result<crate::MiddlewareOp, crate::StoreError> {
+        let j = log_phase(PH_EFFECT, *state, *action);
+        nested_dispatch::<Act>(j, &dispatcher);
         core::mem::forget(dispatcher);
-        log_phase(PH_EFFECT, *state, *action);
         Ok(crate::MiddlewareOp::ContinueAction)
     }
     fn before_dispatch(
@@ -210,6 +230,8 @@ pub fn g_reset() {
         core::ptr::write(&mut G_STORE, None);
         CUR_MODE = 1;
         CUR_CHAN = 0;
+        NEST_AT = usize::MAX;
+        NEST_RES = 0;
     }
 }
 pub fn symbolic_summaries(k: usize) {
@@ -251,6 +273,8 @@ pub const END_STOP: u8 = 0;
 pub const END_CLOSE_STOP: u8 = 1;
 pub const END_DROP: u8 = 2;
 pub const END_CLOSE_DISPATCH_STOP: u8 = 3;
+/// close() through a clone while the backlog is still queued, then drop(DroppableStore)
+pub const END_CLOSE_DROP: u8 = 4;
 
 /// deferred schedules: k symbolic actions, symbolic summary outputs
 fn g_fold(k: usize, cap: usize, end: u8) {
@@ -276,12 +300,16 @@ fn g_fold(k: usize, cap: usize, end: u8) {
         j += 1;
     }
     chk!(7, rt::now() == 0, "nothing of the pipeline runs on the dispatching thread");
+    let is_drop = end == END_DROP || end == END_CLOSE_DROP;
     let mut rejected_after_close = 0usize;
+    // the model clock at the moment stop() / the drop returned (before anything else is scheduled)
+    let ret0: u8;
     match end {
         END_CLOSE_STOP => {
             store.close();
             rt::run_loop(0);
             store.stop();
+            ret0 = rt::now();
         }
         END_CLOSE_DISPATCH_STOP => {
             store.close();
@@ -291,14 +319,25 @@ fn g_fold(k: usize, cap: usize, end: u8) {
             core::mem::forget(r);
             rejected_after_close += 1;
             store.stop();
+            ret0 = rt::now();
             rt::run_loop(0);
         }
         END_DROP => {
             drop(DroppableStore::new(store.clone()));
+            ret0 = rt::now();
+            rt::run_loop(0);
+        }
+        END_CLOSE_DROP => {
+            let other = store.clone();
+            other.close();
+            core::mem::forget(other);
+            drop(DroppableStore::new(store.clone()));
+            ret0 = rt::now();
             rt::run_loop(0);
         }
         _ => {
             store.stop();
+            ret0 = rt::now();
             rt::run_loop(0);
         }
     }
@@ -306,7 +345,7 @@ fn g_fold(k: usize, cap: usize, end: u8) {
     let at_return = rt::now();
     let pg = rusty_pool::ghost::pool(0);
     chk!(4, pg.join_requests >= 1 && pg.shutdowns >= 1, "stop() takes the pool and joins it");
-    chk!(15, end != END_DROP || (pg.join_requests >= 1 && pg.shutdowns >= 1), "dropping a DroppableStore stops the store whatever the reference count");
+    chk!(15, !is_drop || (pg.join_requests >= 1 && pg.shutdowns >= 1), "dropping a DroppableStore stops the store whatever the reference count");
     match rusty_pool::ghost::loop_task(0) {
         Some(t) => chk!(4, rusty_pool::ghost::task(t).state == rusty_pool::ST_DONE, "the reducer loop has ended when stop() returns"),
         None => panic!("VERIF-MODEL: no reducer loop task recognised"),
@@ -336,7 +375,8 @@ fn g_fold(k: usize, cap: usize, end: u8) {
         } else {
             chk!(3, n.n == 0, "no notify phase for a Keep answer");
         }
-        chk!(4, last <= at_return, "every accepted action is completely processed when stop() returns");
+        chk!(4, last <= at_return && last <= ret0, "every accepted action is completely processed when stop() returns");
+        chk!(15, !is_drop || last <= ret0, "when the drop returns all previously accepted actions have been processed");
         prev = out;
         prev_at = last;
         j += 1;
@@ -346,7 +386,7 @@ fn g_fold(k: usize, cap: usize, end: u8) {
     }
     let fin = store.get_state();
     chk!(1, fin == prev, "after stop() get_state() is the state after the last reduced action");
-    chk!(15, end != END_DROP || fin == prev, "after the drop the final state is visible through every clone");
+    chk!(15, !is_drop || fin == prev, "after the drop the final state is visible through every clone");
 
     // finality
     let clock = rt::now();
@@ -356,7 +396,7 @@ fn g_fold(k: usize, cap: usize, end: u8) {
     let r2 = Dispatcher::dispatch(&store, x);
     let r3 = <Store as StoreTrait<St, Act>>::dispatch(&store, x);
     chk!(4, r1.is_err() && r2.is_err() && r3.is_err(), "after stop() dispatch through every entry point returns a DispatchError");
-    chk!(15, end != END_DROP || (r1.is_err() && r2.is_err() && r3.is_err()), "after the drop every remaining clone rejects dispatches");
+    chk!(15, !is_drop || (r1.is_err() && r2.is_err() && r3.is_err()), "after the drop every remaining clone rejects dispatches");
     core::mem::forget(r1);
     core::mem::forget(r2);
     core::mem::forget(r3);
@@ -390,6 +430,8 @@ glue_plain! { #[kani::unwind(7)] fn g_fold_k3_drop() { g_fold(3, 4, END_DROP); }
 glue_plain! { #[kani::unwind(7)] fn g_fold_k3_close_stop() { g_fold(3, 4, END_CLOSE_STOP); } }
 glue_plain! { #[kani::unwind(7)] fn g_fold_k3_close_dispatch_stop() { g_fold(3, 4, END_CLOSE_DISPATCH_STOP); } }
 glue_plain! { #[kani::unwind(6)] fn g_fold_k1_drop() { g_fold(1, 2, END_DROP); } }
+glue_plain! { #[kani::unwind(6)] fn g_fold_k2_close_drop() { g_fold(2, 3, END_CLOSE_DROP); } }
+glue_plain! { #[kani::unwind(6)] fn g_fold_k1_close_drop() { g_fold(1, 2, END_CLOSE_DROP); } }
 
 
 // -----------------------------------------------------------------------------------------
@@ -715,6 +757,85 @@ glue_plain! { #[kani::unwind(7)] fn g_full_latest_k2_stop() { g_full_at_stop(2, 
 glue_plain! { #[kani::unwind(7)] fn g_full_latest_k1_drop() { g_full_at_stop(1, 2, END_DROP); } }
 glue_plain! { #[kani::unwind(7)] fn g_full_oldest_k2_stop() { g_full_at_stop(2, 1, END_STOP); } }
 glue_plain! { #[kani::unwind(7)] fn g_full_oldest_k3_drop() { g_full_at_stop(3, 1, END_DROP); } }
+
+// -----------------------------------------------------------------------------------------
+// G-nested (C02 / C01 / C11): the loop runs FIRST (store still open); during the effect phase
+// of action 0 a middleware dispatches x synchronously through the dispatcher it was handed,
+// while action 1 - whose dispatch returned earlier - is still queued.  When the loop finds the
+// queue empty the client calls close(); then stop().  Oracle: a0, a1, x each go through the
+// pipeline once, in that order (real-time order: a1 was accepted before x was dispatched),
+// each fed the state left by its predecessor.
+// -----------------------------------------------------------------------------------------
+static mut NEST_CLOSED: bool = false;
+fn nested_block(kind: u8, obj: usize) {
+    unsafe {
+        if kind == hk::RECV && obj == 0 && !NEST_CLOSED {
+            if let Some(s) = G_STORE.as_ref() {
+                NEST_CLOSED = true;
+                rt::in_ctx(rt::CTX_CLIENT, || s.close());
+                return;
+            }
+        }
+    }
+    panic!("VERIF-DEADLOCK: host blocked with nothing to unblock it");
+}
+pub fn nested_block_pub(kind: u8, obj: usize) {
+    nested_block(kind, obj)
+}
+fn g_nested(cap: usize) {
+    g_reset();
+    crossbeam::hooks::set_native(Some(rt::default_yield), Some(nested_block_pub));
+    let init: St = kani::any();
+    let store = mk_glue_store(cap, BackpressurePolicy::BlockOnFull, init);
+    let x: Act = kani::any();
+    unsafe {
+        core::ptr::write(&mut G_STORE, Some(store.clone()));
+        NEST_CLOSED = false;
+        NEST_AT = 0;
+        NEST_ACT = x;
+    }
+    symbolic_summaries(3);
+    let a0: Act = kani::any();
+    let a1: Act = kani::any();
+    core::mem::forget(StoreImpl::dispatch(&store, a0));
+    core::mem::forget(StoreImpl::dispatch(&store, a1));
+    rt::run_loop(0);
+    store.stop();
+    rt::run_pending(2);
+    chk!(2, unsafe { NEST_RES } == 1, "a dispatch from inside a middleware callback of an open store is accepted");
+    chk!(5, unsafe { NEST_RES } == 1, "BlockOnFull with room: accepted");
+    let exp = [a0, a1, x];
+    let mut prev = init;
+    let mut j = 0;
+    while j < 3 {
+        let r = unsafe { PH[j][PH_REDUCE] };
+        chk!(1, r.n == 1, "every accepted action - also one dispatched from inside a callback - enters the reduce phase exactly once");
+        chk!(2, r.act == exp[j], "real-time order: an action whose dispatch returned before another dispatch began is reduced first, also when the later one comes from a middleware on the reducer thread");
+        chk!(1, r.st == prev, "each action starts from the state left by the previously reduced action");
+        chk!(7, unsafe { PH[j][PH_EFFECT].n } == 1 && unsafe { PH[j][PH_EFFECT].at } > r.at && (j == 0 || r.at > unsafe { PH[j - 1][PH_EFFECT].at }), "one action at a time: an action dispatched during a phase is processed after the current one is finished");
+        prev = unsafe { SUM_OUT[j] };
+        j += 1;
+    }
+    chk!(1, store.get_state() == prev, "after stop() get_state() is the state after the last reduced action");
+    chk!(4, unsafe { PH[2][PH_REDUCE].n } == 1, "an action accepted before close() is processed before stop() returns");
+    unsafe {
+        core::ptr::write(&mut G_STORE, None);
+    }
+    core::mem::forget(store);
+    finish!(1, 2, 4, 5, 7);
+}
+glue_harness! {
+    #[kani::stub(crossbeam::hooks::yield_point, crate::verif_kani::rt::default_yield)]
+    #[kani::stub(crossbeam::hooks::block, crate::verif_kani::g_glue::nested_block_pub)]
+    #[kani::unwind(7)]
+    fn g_nested_cap3() { g_nested(3); }
+}
+glue_harness! {
+    #[kani::stub(crossbeam::hooks::yield_point, crate::verif_kani::rt::default_yield)]
+    #[kani::stub(crossbeam::hooks::block, crate::verif_kani::g_glue::nested_block_pub)]
+    #[kani::unwind(7)]
+    fn g_nested_cap2() { g_nested(2); }
+}
 
 // -----------------------------------------------------------------------------------------
 // S-read-hold (C01 / C08): a reader thread is SUSPENDED INSIDE get_state() - it has taken the
